@@ -190,9 +190,9 @@ def broad_handler(ctx, repo):
     ctx.rule("F17-broad", "a decompressor called through an overridable attribute (self._decompress: zlib in WOFFFlavorData, brotli in WOFF2FlavorData) is wrapped by `except Exception` (or a tuple naming every binding's error) converting to TTLibError", floor=1)
     m = repo.mod("ttLib/sfnt.py")
     c = m.cls("WOFFFlavorData")
-    fn = c.methods["__init__"].node
     n = 0
-    for tr in [x for x in ast.walk(fn) if isinstance(x, ast.Try)]:
+    # wherever in the class the call sits (the constructor, or a block-reading method extracted from it)
+    for tr in [x for mth in c.methods.values() for x in ast.walk(mth.node) if isinstance(x, ast.Try)]:
         if not any(isinstance(x, ast.Call) and norm(x.func) == "self._decompress" for s in tr.body for x in ast.walk(s)):
             continue
         n += 1
